@@ -68,7 +68,10 @@ theorem receive_exclusive {s : St} (h : Reachable s) :
    fun t hp => ((invL_of_reachable h).recv_iff t).1 (by rw [hp]; rfl),
    chan_fifo h⟩
 
-/-- **A request completes at most once, with the payload of the response bearing its seq.**
+/-- (`answer q` is what came back for request `q`: the peer's reply, or — when the connection was closed while the
+request was still pending — the end-of-connection marker with which `_cleanup` completes it.)
+
+**A request completes at most once, with the payload of the response bearing its seq.**
 `completions q` counts executions of `_is_ready = True` for the result of request `q`; whatever the result
 cell holds is what the peer answered to *that* seq; a callback is popped by at most one thread. -/
 theorem own_reply {s : St} (h : Reachable s) (q : Seq) :
@@ -93,11 +96,13 @@ theorem caller_gets_own_reply {s : St} (h : Reachable s) (t : Tid) (e : Option B
     ∃ e' v, s.answer (s.loc t).seq = some (e', v) ∧ e = some e' ∧ o = some v :=
   (invS_of_reachable h).result_ok t e o hb hr
 
-/-- frames in the channel and in threads' hands are answers the peer really gave, and the peer answers
-only requests that were sent and not yet answered -/
+/-- frames in the channel and in threads' hands are answers the peer really gave — unless the request was
+meanwhile completed by `Connection._cleanup` with the end of the connection (`eofed`: the ghost `answer` of that
+seq is then the end-of-connection marker `(true, eofVal)`, its callback is gone, and the frame will be dropped) —
+and the peer answers only requests that were sent and not yet answered -/
 theorem frames_are_answers {s : St} (h : Reachable s) :
-    (∀ f ∈ s.chan, s.answer f.seq = some (f.exc, f.val)) ∧
-    (∀ t f, (s.loc t).data = some f → s.answer f.seq = some (f.exc, f.val)) ∧
+    (∀ f ∈ s.chan, s.answer f.seq = some (f.exc, f.val) ∨ (s.cells f.seq).eofed = true) ∧
+    (∀ t f, (s.loc t).data = some f → s.answer f.seq = some (f.exc, f.val) ∨ (s.cells f.seq).eofed = true) ∧
     (∀ q ∈ s.outstanding, s.answer q = none ∧ q < s.seqCounter) :=
   let i := invS_of_reachable h
   ⟨i.chan_answer, i.data_answer, i.out_unanswered⟩
@@ -197,8 +202,9 @@ example : ∃ s, run init crossed = some s ∧ (s.loc 2).result = some (.value (
   decide
 
 /-- end of stream while client 1 is in `poll` and client 2 (no expiry) sleeps on the condition: client 1 meets the
-EOF, closes, releases, notifies and leaves with `EOFError`; client 2 wakes up, finds the closed channel and leaves
-with `EOFError` too; nobody is left inside a call -/
+EOF, closes — which completes client 2's still-pending request with `EOFError("connection closed")` —, releases,
+notifies and leaves with `EOFError`; client 2 wakes up, finds its result ready and gets that error from `value`;
+nobody is left inside a call -/
 def eofWhileParked : List Actor :=
   [.call 1 (some 9), .call 2 none] ++ r 1 3 ++ r 2 2 ++ r 1 5 ++ r 2 5 ++ [.peerEof]
 
@@ -207,9 +213,10 @@ example : ∃ s, run init eofWhileParked = some s ∧ s.eof = true ∧ s.closed 
   refine ⟨(run init eofWhileParked).get (by decide), by simp, ?_⟩
   decide
 
-example : ∃ s, run init (eofWhileParked ++ r 1 7 ++ r 2 14) = some s ∧ s.closed = true ∧ s.waiters = [] ∧
-    (s.loc 1).pc = .idle ∧ (s.loc 1).result = some .eof ∧ (s.loc 2).pc = .idle ∧ (s.loc 2).result = some .eof := by
-  refine ⟨(run init (eofWhileParked ++ r 1 7 ++ r 2 14)).get (by decide), by simp, ?_⟩
+example : ∃ s, run init (eofWhileParked ++ r 1 7 ++ r 2 5) = some s ∧ s.closed = true ∧ s.waiters = [] ∧
+    (s.loc 1).pc = .idle ∧ (s.loc 1).result = some .eof ∧ (s.loc 2).pc = .idle ∧
+    (s.loc 2).result = some (.value (some true) (some eofVal)) ∧ s.popper 1 = some 1 := by
+  refine ⟨(run init (eofWhileParked ++ r 1 7 ++ r 2 5)).get (by decide), by simp, ?_⟩
   decide
 
 /-- a polling thread (`conn.poll_all(0)` = `serve(0, wait_for_lock=False)`, thread 2) is the receiver: it holds the
